@@ -50,7 +50,7 @@ def run_case(chk, r, root, n, in_parts, npart, mode, comp, prior, dup, tag, tail
         ddf = dd.from_pandas(df, npartitions=in_parts)
         mark_opens, mark_moves, mark_calls = len(fs.opens), len(fs.moves), len(fs.calls)
         tf = packfs.tempdir_format(mode, work)
-        for d in ("scratch_u", "scratch_p"):
+        for d in ("scratch_u", "scratch_p", "out.parq.scratch_s"):
             os.makedirs(os.path.join(work, d), exist_ok=True)      # the user's scratch area exists beforehand
         try:
             out = ddf.pack_partitions_to_parquet(path, filesystem=fs, npartitions=npart, p=6, compression=comp, tempdir_format=tf,
@@ -65,7 +65,7 @@ def run_case(chk, r, root, n, in_parts, npart, mode, comp, prior, dup, tag, tail
         chk.evaluated(n)
         tr = packfs.tree(work)
         inside = [(k, p[len("out.parq/"):]) for k, p in tr if p.startswith("out.parq/")]
-        outside = [(k, p) for k, p in tr if not p.startswith("out.parq") and p not in ("scratch_u", "scratch_p")]
+        outside = [(k, p) for k, p in tr if not (p == "out.parq" or p.startswith("out.parq/")) and p not in ("scratch_u", "scratch_p", "out.parq.scratch_s")]
         files = sorted(p for k, p in inside if k == "f")
         dirs = sorted(p for k, p in inside if k == "d")
         partfiles = [p for p in files if p.startswith("part.")]
@@ -117,7 +117,7 @@ def run_case(chk, r, root, n, in_parts, npart, mode, comp, prior, dup, tag, tail
         def tmp_no(pth):
             d = os.path.dirname(pth)
             if mode == "inside":
-                return part_no(d) if d.startswith(path) else None
+                return part_no(d) if d.startswith(path + "/") else None
             b = os.path.basename(d)
             return int(b.split("part")[1].lstrip(".-")) if b.startswith("part") and "scratch" in d else None
         cells = {}
@@ -134,7 +134,7 @@ def run_case(chk, r, root, n, in_parts, npart, mode, comp, prior, dup, tag, tail
         n_in = ddf.npartitions
         cell_rows = [[cells.get((i, j), 0) for j in range(n_in)] for i in range(npart)]
         pr = 0 if not prior else {"smaller": max(1, npart - 1), "larger": npart + 3}[prior]
-        line = f"packproto {('inside', 'outside-uuid', 'outside-plain').index(mode)} {int(bool(prior))} {npart} {n_in} {tok(cell_rows)} {tok(order)} {pr}"
+        line = f"packproto { {'inside': 0, 'outside-uuid': 1, 'outside-plain': 2, 'outside-sibling': 2}[mode] } {int(bool(prior))} {npart} {n_in} {tok(cell_rows)} {tok(order)} {pr}"
         pm = untok(drive([line])[0])
         if not isinstance(pm, list) or sorted(order) != list(range(npart)):
             chk.tie_broken(f"correspondence C10 protocol: model rejects / concatenation order not observed: {line[:300]} -> {str(pm)[:100]}")
@@ -176,6 +176,10 @@ def run_cases(chk, tier):
                                         duplicates=dup), cap=6)
                     k += 1
         # an input partition that holds only missing geometries (its bounds are NaN): the curve must still span the located rows
+        # a temporary area next to the dataset whose path string begins with the dataset path; empty output partitions
+        for npart in (2, 5) if tier == "quick" else (1, 2, 3, 5, 8, 13):
+            for dup in (False, True):
+                run_case(chk, r, root, 6 if dup else r.choice((1, 2, 3)), 1, npart, "outside-sibling", "snappy", (None, "larger")[npart % 2], dup, "sibling")
         for mode in ("inside", "outside-uuid"):
             run_case(chk, r, root, 12, 2, 3, mode, "snappy", None, False, "all-missing-input-partition", tail_missing=6)
             run_case(chk, r, root, 9, 3, 4, mode, None, None, False, "all-missing-input-partition", tail_missing=3)
